@@ -5,7 +5,7 @@ from nodegen import *
 ID = "C01"
 DRIVER = "node"
 MODEL_FILES = ["Model/Base.v", "Model/Parse.v", "Model/Node.v"]
-THEOREMS = ["C01_set_value_ok", "C01_set_value_refused", "C01_remove_value_spec", "C01_remove_token_refused", "C01_inc_value_spec", "C01_get_spec", "C01_list_keys_spec", "C01_list_keys_sorted", "C01_refines", "C01_refines_empty", "C01_refused_changes_nothing", "C01_wf_db_empty", "C01_set_value_wf", "C01_remove_value_wf", "C01_inc_value_wf"]
+THEOREMS = ["C01_set_value_ok", "C01_set_value_refused", "C01_remove_value_spec", "C01_remove_token_refused", "C01_inc_value_spec", "C01_get_spec", "C01_list_keys_spec", "C01_list_keys_sorted", "C01_refines", "C01_refines_empty", "C01_refused_changes_nothing", "C01_wf_db_empty", "C01_set_value_wf", "C01_remove_value_wf", "C01_inc_value_wf", "C01_starts_with_spec", "C01_ends_with_spec", "C01_contains_spec", "C01_pattern_prefix_spec", "C01_pattern_suffix_spec", "C01_pattern_contains_spec", "C01_pattern_match_classify", "C01_pattern_star_both_prefix", "C01_list_keys_prefix_spec", "C01_list_keys_suffix_spec", "C01_list_keys_contains_spec", "C01_list_keys_all_spec", "C01_pattern_examples"]
 STRENGTH = {t: "proof-unbounded" for t in THEOREMS}
 RULE = ("exhaustive command sequences (length <= 3 quick / 4 thorough) over a 16-symbol alphabet of "
         "set/set-safe/get/remove/increment/keys/snapshot+flush on keys {a, ab}, plus seeded random sequences of length 5-40 over "
